@@ -128,9 +128,20 @@ func init() {
 			seed := uint64(r.Int63())
 			defExpr := []string{"", "", "20", "d6", "2d4"}[r.Intn(5)]
 			prog := c06Program(r)
-			a := c06Run(c06VM(seed, defExpr), prog)
+			vmA := c06VM(seed, defExpr)
+			a := c06Run(vmA, prog)
 			noise(r)
-			a2 := c06Run(c06VM(seed, defExpr), prog)
+			var a2 c06Out
+			if i%2 == 0 {
+				a2 = c06Run(c06VM(seed, defExpr), prog)
+			} else {
+				// the same context seeded again from the same seed bytes (Seed + Init on a used context)
+				src := &xrand.PCGSource{}
+				src.Seed(seed)
+				vmA.Seed, _ = src.MarshalBinary()
+				vmA.Init()
+				a2 = c06Run(vmA, prog)
+			}
 			// resumption: P1 on VM1, capture the generator state, fresh VM2 with it; P2 on both
 			p1, p2 := c06Program(r), c06Program(r)
 			vm1 := c06VM(seed, defExpr)
@@ -139,6 +150,13 @@ func init() {
 			vm2 := &ds.Context{Seed: sd}
 			vm2.Init()
 			vm2.Config = vm1.Config
+			if i%3 == 0 {
+				// ... or a context that has been used before and is given the captured state (Seed + Init again)
+				vm2 = c06VM(uint64(r.Int63()), defExpr)
+				c06Run(vm2, c06Program(r))
+				vm2.Seed = sd
+				vm2.Init()
+			}
 			noise(r)
 			r1 := c06Run(vm1, p2)
 			// vm1 keeps the variables of P1; P2 assigns before it reads, so both start equal in what they observe
